@@ -34,6 +34,21 @@ CHECKS = {
             "Generated insert/remove/re-insert/flush/cut-flush/reload/search histories over all metrics, dimensions 2..64, both selection strategies, tiny M: every search returns <= k distinct live ids in non-decreasing distance order with distances equal (2e-4) to the documented metric on the stored bf16 vector; loads after any cut flush succeed, list only committed (or interrupted) ids with committed-or-interrupted vectors and stay sound. The documented recall workloads plus an interrupted-flush + re-index workload are re-run over several seeds and compared with the documented floors (fixed margin 0.05 for the interrupted case).",
             "Recall is a statistic (mean over seeds vs documented average floor, per seed vs worst-case floor); completeness of a single search is not demanded. Graph layers come from the seeded verif hook. Trusts the harness's f64 metric implementations and proptest.",
             "§5 C12"),
+    "C01": ("vf-db", "fault_enumeration",
+            "crash-point enumeration over generated operation histories (proptest) with a model allowed-set oracle; nested crashes inside recovery; land-then-fail (unknown outcome) fault injection",
+            "For generated collection histories (add/update/remove/flush/extensions/compaction/close-or-abandon+reopen with index creation and removal; 10 indexes; InMemory, MetaStore, EncryptedStore) the power is cut at backend mutation k (every k in thorough; a stratified sample incl. the first/last mutation of every op in quick), again at mutations of the recovery, and single mutations land-then-fail; after reboot with fresh wrappers the database reopens unaided, the document map equals the acknowledged state or that state plus the in-flight op, extensions likewise, every index answers from the recovered documents, a sentinel write + flush + second reopen converges, and no flushed id is handed out again.",
+            "Crash model: each single backend call is atomic (object_store contract); torn writes are outside the documented model. The virtual clock hook makes mutation counts reproducible. Trusts the harness model, CtlStore and proptest. Histories are bounded to 23 ops and one process.",
+            "§5 C01"),
+    "C02": ("vf-db", "exploration",
+            "model-based stateful property testing (proptest histories) with a two-directional index <-> document observation function after every operation",
+            "Generated histories (incl. rejected writes, reopen with and without close, index creation with backfill and index removal) over generated subsets of unique / array / map-keyed / optional / multi-field B-tree, BM25 and HNSW indexes on three backends; after EVERY op ids/len/contains/get agree with the model, keys() of every B-tree equals the key set derived from the documents and Eq(k) returns exactly the documents carrying k, every vocabulary word's text search returns exactly the live documents containing it, the vector index holds one entry per live document and returns only live distinct ids. The same observation runs after recovery from every crash point explored by C01.",
+            "Trusts the harness's own derivation of index keys from documents (documented default IndexHooks), virtual_field_value for composite keys (the public helper callers must use) and proptest. Custom hooks/tokenizers are not generated; creating a unique index over already-duplicated data is treated as a caller error and not generated.",
+            "§5 C02"),
+    "C13": ("vf-schema", "exploration",
+            "type-directed property-based testing (proptest: FieldType grammar x choice-sequence values valid by construction, single-mutation invalid values, exhaustive complexity-budget boundary grid, fixed derive structs, schema upgrade chains) against the harness's own fold canon(type, value) and model of the documented validation rules",
+            "Documents generated from FieldType trees (depth <= 4, every constructor, boundary numerics, every documented read-back shape) are written through set_field, Document::try_from, FieldEntry::coerce and set_field_as, stored as Collection stores them and read back: every field must equal the harness's fold into the declared variant and a second round trip is a fix-point; single mutations (12 kinds) and the complete budget grid at limit-1/limit/limit+1 must be refused by every entry point that can express them; any accepted value, valid or not, must stay readable; 8 derive structs covering the inference table reproduce T bit for bit; 2-5-version upgrade chains keep surviving fields, drop removed ones, never resurrect re-added top-level names, and every documented-forbidden upgrade is refused.",
+            "Trusts cbor2 and proptest; stored form = cbor2 of Document as in anda_db::Collection. Folds two serde-inherent ambiguities (Json null under Option; non-finite float at a Json position -> null). Entry points are compared only on values both can express. Two listed known findings are excluded by construction and reproduced by the finding_probes sub-check. JSON serialisation of FieldValue and CBOR byte fuzzing are not covered.",
+            "§5 C13"),
 }
 
 NOT_YET = {
